@@ -263,7 +263,7 @@ def harness_build(timeout=3000):
 
 
 # ---------------------------------------------------------------- running the two sides
-def run_lines(binary, args, lines, timeout=600, shards=16, env=None):
+def run_lines(binary, args, lines, timeout=600, shards=16, env=None, _retry=0):
     """Feeds case lines to `binary args` over stdin in parallel shards; returns list of output
     lines aligned with input lines. A shard that dies yields 'ABORT' for its unanswered cases."""
     n = len(lines)
@@ -281,23 +281,41 @@ def run_lines(binary, args, lines, timeout=600, shards=16, env=None):
         procs.append((p, ch))
     import threading
     results = [None] * n
+    timed_out = []   # indices left unanswered because the shard hit the wall-clock limit (not because it died)
 
     def work(p, ch):
+        late = False
         try:
             out, _ = p.communicate("\n".join(lines[i] for i in ch) + "\n", timeout=timeout)
         except subprocess.TimeoutExpired:
+            late = True
             p.kill()
             out, _ = p.communicate()
             out = (out or "")
         ol = out.split("\n")
         if ol and ol[-1] == "":
             ol.pop()
+        if late and ol and len(ol) <= len(ch):
+            ol.pop()          # the last line of a killed process may be cut short
         for k, i in enumerate(ch):
-            results[i] = ol[k] if k < len(ol) else "ABORT"
+            if k < len(ol):
+                results[i] = ol[k]
+            else:
+                results[i] = "ABORT"
+                if late:
+                    timed_out.append(i)
 
     ths = [threading.Thread(target=work, args=pc) for pc in procs]
     [t.start() for t in ths]
     [t.join() for t in ths]
+    # The extracted model is a pure function of one input line, so cases that a loaded machine did not reach in
+    # time are simply run again with a longer limit (never done for the implementation side, whose probes may
+    # keep state between lines and whose hangs are findings). What is still unanswered stays "ABORT".
+    if timed_out and binary == MODEL_RUN and _retry < 2:
+        idx = sorted(timed_out)
+        again = run_lines(binary, args, [lines[i] for i in idx], timeout=timeout * 3, shards=16, env=env, _retry=_retry + 1)
+        for i, r in zip(idx, again):
+            results[i] = r
     return results
 
 
